@@ -172,8 +172,8 @@ class Run:
             return TinyFlux(storage=MemoryStorage, auto_index=auto)
         return TinyFlux(os.path.join(self.dir, "db.csv"), auto_index=auto)
 
-    def note(self, props, what, detail=None):
-        props = sorted(set(props) | set(self.extra_props))
+    def note(self, props, what, detail=None, plain=False):
+        props = sorted(set(props) | (set() if plain else set(self.extra_props)))
         if len(self.fail) < 400:
             what = "%s @%s/%s" % (what, self.cfg[0], "auto" if self.cfg[1] else "noauto")
             self.fail.append(dict(props=props, what=what, detail=repr(detail)[:300], cfg=list(self.cfg), history=copy.deepcopy(self.hist)))
@@ -328,7 +328,7 @@ class Run:
         # C11: contents as before (the model was not advanced), index agrees, still usable
         got = [pkey(p) for p in self.db.all(sorted=False)]
         if got != [pkey(p) for p in self.model]:
-            self.note(["C11"], "contents changed by a raising %s" % what)
+            self.note(["C11"], "contents changed by a raising %s" % what, plain=True)
             self.stop = True  # later symptoms of the same history would only repeat this one
 
     # ---- observations -----------------------------------------------------
@@ -443,7 +443,7 @@ class Run:
             he = db.measurement("")
             if he.count(parse_query("M.test")[0]) != 0 or len(he.search(parse_query("Tb.exists")[0])) != 0:
                 if not any(p.measurement == "" for p in model):
-                    self.note(["C10"], "Measurement('') reads are not restricted to the name ''")
+                    self.note(["C10"], "Measurement('') reads are not restricted to the name ''", plain=True)
         except Exception as ex:
             self.note(["C10"], "Measurement('') raises %s" % type(ex).__name__)
         if db.get_measurements() != sorted({p.measurement for p in model}):
